@@ -168,6 +168,9 @@ pub struct TickSpec {
     /// use advance_frame_with_wait() instead of advance_frame()
     #[serde(default)]
     pub use_wait: bool,
+    /// with use_wait: call advance_frame_with_wait_timeout(this) instead of advance_frame_with_wait()
+    #[serde(default)]
+    pub wait_timeout_us: Option<u64>,
     /// the node only polls, never advances (C12 quiet pair)
     #[serde(default)]
     pub poll_only: bool,
